@@ -529,6 +529,7 @@ def c12_prog(name, rng, entry):
     raw = rng.random() < 0.2
     attrs = " ".join(a for a in ["#[repr(C)]" if rng.random() < 0.15 else "", "#[non_exhaustive]" if rng.random() < 0.15 else ""] if a)
     fnames = ["r#type", "r#match", "r#fn", "r#loop"] if raw else ["a", "b", "c", "d"]
+    attrs_maybe_repr = attrs
     vnames = ["r#A", "r#Self_", "r#C", "r#D", "r#E"] if raw else ["A", "B", "C", "D", "E"]
     def mkfields(kind):
         n = 0 if kind == "unit" else rng.randint(0, 4)
@@ -538,6 +539,8 @@ def c12_prog(name, rng, entry):
         return t2
     if is_enum:
         nv = rng.choice([0, 1, 1, 2, 3, 4, 5])
+        if nv == 0:
+            attrs = attrs.replace("#[repr(C)]", "").strip()       # rustc rejects repr(C) on a zero-variant enum (std derive or not)
         vs = [(vnames[i], rng.choice(["unit", "tuple", "named"])) for i in range(nv)]
         vs = [(n, k, mkfields(k)) for n, k in vs]
     else:
